@@ -8,6 +8,7 @@ the real pipeline below the merging layer with nothing defaulted.
 """
 import abc
 import errno
+import re
 import sys
 import warnings
 
@@ -67,6 +68,13 @@ class Table:
         return 'Table(\n| id  name  \n| 1   x     \n| 22  yy    \n)'
 
 
+class Late:
+    """uses pretty_repr but gets its printer only later in the history"""
+
+    def __init__(self, v):
+        self.v = v
+
+
 class Reentrant:
     """its printer returns a contextual document whose evaluator calls pformat again at layout time"""
 
@@ -124,6 +132,7 @@ def setup():
     @P.register_pretty(Reg)
     def pr(v, ctx):
         return P.pretty_call(ctx, Reg, v.v)
+    Late.__repr__ = P.pretty_repr
     Shape.register(Circle)
     Circle.__repr__ = P.pretty_repr
 
@@ -170,6 +179,9 @@ def generate(rng, idx, tier):
     p_set = rng.choice([0.2, 0.5])
     for step in range(rng.randrange(3, 25)):
         k = rng.choice(['set', 'set', 'get', 'call', 'call', 'call', 'call', 'faulty', 'pp_new', 'pp_use', 'pp_use'])
+        if k == 'pp_new' and rng.random() < 0.3:
+            ops.append([rng.choice(['late_repr', 'late_repr', 'late_register'])])
+            continue
         if k == 'pp_new':
             ops.append(['pp_new', {s_: rng.choice(DOM[s_]) for s_ in KEYS if rng.random() < p_explicit}])
             continue
@@ -198,6 +210,20 @@ def generate(rng, idx, tier):
     return dict(ops=ops)
 
 
+def _calls_pformat_itself(v, depth=0):
+    """values whose printer / __repr__ makes a nested pformat call with defaulted settings: their text
+    legitimately depends on the defaults in force"""
+    if isinstance(v, (Reentrant, OldStyle, Late)):
+        return True
+    if depth > 6:
+        return False
+    if isinstance(v, dict):
+        return any(_calls_pformat_itself(x, depth + 1) for x in list(v.keys()) + list(v.values()))
+    if isinstance(v, (list, tuple, set, frozenset)):
+        return any(_calls_pformat_itself(x, depth + 1) for x in v)
+    return False
+
+
 def _expected(v, eff):
     try:
         # the public pipeline below the merging layer, rendered into our own stream
@@ -217,6 +243,9 @@ def execute(spec):
                digest=core.digest_of(spec['ops']), **{'class': None})
     trace = []
     keep = []       # persistent PrettyPrinter objects: (object, explicit settings)
+    late = [False]
+    seen_calls = []  # (op, value, effective settings, text): re-derived under the stock defaults at the end
+    stock = dict(model)
 
     def bump(k):
         counters[k] = counters.get(k, 0) + 1
@@ -256,6 +285,27 @@ def execute(spec):
             trace.append(op)
             if got != model:
                 return fail('defaults_wrong', 'get', op=op, got=got)
+        elif k == 'late_register':
+            if not late[0]:
+                P.register_pretty(Late)(lambda v, ctx: P.pretty_call(ctx, Late, v.v))
+                late[0] = True
+            bump('op_late_register')
+            trace.append(op)
+        elif k == 'late_repr':
+            inst = Late({'q': [1, 2, 3]})
+            try:
+                got = repr(inst)
+            except Exception as e:
+                return fail('entry_raised', type(e).__name__, op=op, error=repr(e)[:300])
+            bump('op_late_repr_registered' if late[0] else 'op_late_repr_unregistered')
+            trace.append(op)
+            if late[0]:
+                exp, _how = _expected(inst, dict(model))
+                if got != exp:
+                    return fail('text_differs', 'pretty_repr_after_late_registration', op=op, got=got[:300],
+                                expected=exp[:300])
+            elif not re.fullmatch(r'<[\w.]+ object at 0x[0-9a-f]+>', got):
+                return fail('text_differs', 'pretty_repr_unregistered', op=op, got=got[:300])
         elif k == 'pp_new':
             # a PrettyPrinter object that lives on: its explicit settings are fixed now, whatever it
             # leaves to the defaults must follow later set_default_config calls
@@ -358,12 +408,25 @@ def execute(spec):
             if got != exp:
                 return fail('text_differs', entry, op=op, got=got[:400], expected=exp[:400],
                             effective=eff)
+            if entry != 'pretty_repr' and not _calls_pformat_itself(v):
+                seen_calls.append((op, v, eff, exp[:len(exp) - len(endtxt)] if entry not in ('pformat', 'PP_pformat') and endtxt else exp))
         else:
             raise core.HarnessError('bad op %r' % (op,))
     # the defaults at the end of the history (after any aborted writes) still equal the model
     cur = P.get_default_config()
     if {s: cur[s] for s in KEYS if s in cur} != model:
         return fail('defaults_wrong', 'end_of_history', got=dict(cur))
+    # explicit arguments ALWAYS override defaults: the text of a call is a function of its effective
+    # settings only. Put the stock defaults back and re-derive every call's text with all six settings
+    # explicit; it must not have depended on what the defaults were when the call was made.
+    if seen_calls and model != stock:
+        P.set_default_config(**{s_: stock[s_] for s_ in SETTABLE})
+        for op, v, eff, text in seen_calls[-12:]:
+            again, _how = _expected(v, eff)
+            bump('rederived_under_stock_defaults')
+            if again != text:
+                return fail('depends_on_defaults_beyond_effective_settings', op[1], op=op, effective=eff,
+                            text_when_called=text[:400], text_under_stock_defaults=again[:400])
     res['sample'] = [o if o[0] != 'call' else o[:2] + o[3:] for o in spec['ops'][:8]]
     return res
 
